@@ -186,6 +186,32 @@ def ctor2Gen {β : Type} (V M N : Nat) (vec : Nat → Nat → List β) (sc : Nat
     (forRange 0 R V).flatMap (fun j => laneW (i * N + j) (vec i j)) ++
     (forRange (forExit 0 R V) N 1).map (fun j => (i * N + j, sc i j))
 
+/-! ## §6 right-hand sides that are evaluated first (`requires_evaluation`: `P % Q`, `trans(C)`, `P % Q + D`, …)
+
+  The evaluating overload of every operator of the 1-D index view and of the mask view is
+  `const result_type& tmp = evaluate(other.self()); this->operator op=(tmp);` — the whole right-hand side is computed
+  from the memory as it is BEFORE the statement, then the element-wise path of §3 / §4 runs with `tmp` as a tensor operand. -/
+
+/-- the operand environment in which window `w` is the temporary -/
+def stagedEnv (env : Nat → Nat → α) (w : Nat) (tmp : Nat → α) : Nat → Nat → α :=
+  fun w' j => if w' = w then tmp j else env w' j
+
+/-- `A(it) op= rhs` with an evaluating right-hand side; `rhsOf mem j` = element `j` of the expression when the parent holds `mem` -/
+def stagedScatter (vea : Bool) (ap : α → α → α) (ofInt : Int → α) (env : Nat → Nat → α) (it : Nat → Nat) (mask : Nat → Bool)
+    (rhsOf : (Nat → α) → Nat → α) (n V : Nat) (A : Nat → α) : Nat → α :=
+  let tmp := rhsOf A
+  exec ap (scatter vea ofInt (stagedEnv env 7 tmp) it mask (.t 7) n V) A
+
+/-- `A(mask) op= rhs` with an evaluating right-hand side -/
+def stagedFilter (ap : α → α → α) (ofInt : Int → α) (env : Nat → Nat → α) (it : Nat → Nat) (mask : Nat → Bool)
+    (rhsOf : (Nat → α) → Nat → α) (n : Nat) (A : Nat → α) : Nat → α :=
+  let tmp := rhsOf A
+  exec ap (filterInstrs ofInt (stagedEnv env 7 tmp) it mask (.t 7) n) A
+
+/-- element `p` of the product of `P : M×K` and `Q : K×N` (row-major); `N = 1` for a matrix-vector product -/
+def mmAt (P Q : Nat → α) (K N p : Nat) : α :=
+  (List.range K).foldl (fun acc k => acc + P (p / N * K + k) * Q (k * N + p % N)) 0
+
 /-! ## read sets (for the correspondence only) -/
 
 /-- positions of window `w` read when the tree is evaluated at the view positions `ps` -/
